@@ -189,6 +189,8 @@ struct Kernel {
   // Run harness code as a simulated process (log-session driver).
   ProcResult RunFunction(const ProcSpec& spec, std::function<int()> body);
   void AddActor(int64_t delay_ns, std::function<void(Kernel&)> fn);
+  void SendSignal(int signo);                 // to the running ninja process
+  std::function<void(const Ev&)> on_event;    // live observer of the trace
 
   // file helpers (absolute or cwd-relative paths), usable by drivers & children
   std::string Abs(const std::string& p) const;
